@@ -37,7 +37,8 @@ Theorem c03_accepted_effect : forall s c n sid u content noecho,
   is_writer (pud_mode (get_pud c u)) = true -> ~ In (c_lastid c + 1) (seqs s) ->
   h_out (publish NoFault s c n sid u content noecho) =
     (sid, Ctrl 202 [(P_seq, c_lastid c + 1)]) ::
-    fanout_data (h_ca (publish NoFault s c n sid u content noecho)) (if noecho then sid else 0%N) (Data (c_lastid c + 1) u content).
+    fanout_data (h_ca (publish NoFault s c n sid u content noecho)) (if noecho then sid else 0%N) (Data (c_lastid c + 1) u content)
+    ++ push_out (h_ca (publish NoFault s c n sid u content noecho)) (c_lastid c + 1) u.
 Proof. exact publish_nofault. Qed.
 End C03.
 
